@@ -1,6 +1,6 @@
 use num::pow::Pow;
 
-use crate::generator::error::GeneratorError;
+use crate::generator::error::{GeneratorError, GeneratorErrorType};
 
 use super::{
     types::{BitString, Choice, Optionality, SequenceOrSet},
@@ -189,7 +189,11 @@ pub fn value_to_tokens(value: &ASN1Value) -> Result<String, GeneratorError> {
                 s.pop();
                 s + "\""
             }),
-        ASN1Value::Time(_) => todo!(),
+        ASN1Value::Time(_) => Err(GeneratorError {
+            details: "Time values are currently unsupported!".into(),
+            kind: GeneratorErrorType::NotYetInplemented,
+            ..Default::default()
+        }),
         ASN1Value::LinkedArrayLikeValue(seq) => seq
             .iter()
             .try_fold(String::from("["), |mut acc, v| {
@@ -212,7 +216,11 @@ pub fn value_to_tokens(value: &ASN1Value) -> Result<String, GeneratorError> {
             value,
         } => Ok(value.to_string()),
         ASN1Value::LinkedCharStringValue(_, value) => Ok(format!(r#""{value}""#)),
-        ASN1Value::All => todo!(),
+        ASN1Value::All => Err(GeneratorError {
+            details: "ALL values are currently unsupported!".into(),
+            kind: GeneratorErrorType::NotYetInplemented,
+            ..Default::default()
+        }),
     }
 }
 
